@@ -370,8 +370,7 @@ func (c *Ctx) boundsRule(printerPart bool) {
 		}
 	}
 	R.Check(okPrintLens && maxPrint <= 4 && len(allPrints) > 1000, "decode#printer-argument-lengths", "-", "every printer call passes nil, a 1- or 4-byte prefix, or the bytes of one operand (at most 4)", fmt.Sprintf("max %d over %d print sites evaluated", maxPrint, len(allPrints)))
-	if dis := c.Fn("decode", "Disassemble"); dis != nil && len(dis.AnonFuncs) == 1 {
-		clo := dis.AnonFuncs[0]
+	if clo := c.printerFunc(); clo != nil {
 		in := c.Interp()
 		lenb := sym.Op("len", "", types.Typ[types.Int], sym.Atom("param:b", nil))
 		br.install(in, []*sym.Term{sym.Bin(tokLEQ, lenb, sym.Int(4), nil)})
